@@ -21,7 +21,7 @@ def run(tier):
             if w and w.startswith(k['signature']):
                 chk.report(k['signature'], w, {})
                 known.append(k['signature'])
-    jobs, gsub, _ = common_jobs('normal', 'g_normal', 'normal_why', tier, known, gsub_thorough=499)
+    jobs, gsub, _ = common_jobs('normal', 'g_normal', 'normal_why', tier, known, gsub_quick=7919, gsub_thorough=499)
     jobs = [j for j in jobs if j.func == 'g_normal']        # normal forms are claimed for scripts of the grammar only
     res = chrun.run_jobs(jobs)
 
